@@ -16,8 +16,8 @@ int main(int argc, char **argv)
   h.closeStore();
   std::error_code ec;
   std::filesystem::remove_all(h.work, ec);
-  std::fprintf(stderr, "interposers: clock_realtime=%lu clock_monotonic=%lu write=%lu open=%lu rename=%lu truncate=%lu unlink=%lu\n",
+  std::fprintf(stderr, "interposers: clock_realtime=%lu clock_monotonic=%lu write=%lu open=%lu rename=%lu truncate=%lu unlink=%lu sliced_waits=%lu\n",
                kvh::g_clockReal.load(), kvh::g_clockMono.load(), kvh::g_nWrite.load(), kvh::g_nOpen.load(), kvh::g_nRename.load(),
-               kvh::g_nTrunc.load(), kvh::g_nUnlink.load());
+               kvh::g_nTrunc.load(), kvh::g_nUnlink.load(), kvh::g_slicedWaits.load());
   return rc;
 }
